@@ -537,7 +537,7 @@ func (fx *FnExec) applyContract(fr *frame, st *State, fc *FuncContract, callee *
 	// fresh(x) in the callee's postconditions: the allocations are made before the result values are
 	// introduced, so that "a value appearing now is no younger than now" stays consistent with them
 	fx.pendingFresh = nil
-	for _, en := range fc.Ensures {
+	for _, en := range append(append([]Clause{}, fc.Ensures...), fc.Proves...) {
 		for k := countCalls(en.Expr, "fresh"); k > 0; k-- {
 			fx.pendingFresh = append(fx.pendingFresh, fx.newRef("fresh"))
 		}
@@ -549,7 +549,7 @@ func (fx *FnExec) applyContract(fr *frame, st *State, fc *FuncContract, callee *
 	}
 	post := mkEnv(st, old)
 	post.assumeFresh = true
-	for _, en := range fc.Ensures {
+	for _, en := range append(append([]Clause{}, fc.Ensures...), fc.Proves...) {
 		if len(logical) > 0 && mentionsIdent(en.Expr, logical) {
 			continue
 		}
@@ -1019,7 +1019,14 @@ func (eng *Engine) VerifyFunc(fn *ssa.Function, opts ExecOpts) (rep *FuncReport)
 	fr.entryPC = st.pc
 	fx.runBody(fr, st)
 	// postconditions on the merged return state
-	if fc != nil && len(fc.Ensures) > 0 && !opts.SafetyOnly {
+	var toProve []Clause
+	if fc != nil {
+		if !fc.Assumed {
+			toProve = append(toProve, fc.Ensures...)
+		}
+		toProve = append(toProve, fc.Proves...)
+	}
+	if fc != nil && len(toProve) > 0 && !opts.SafetyOnly {
 		if len(fr.results) == 0 {
 			return rep
 		}
@@ -1048,10 +1055,11 @@ func (eng *Engine) VerifyFunc(fn *ssa.Function, opts ExecOpts) (rep *FuncReport)
 		}
 		env := &CEnv{fx: fx, fr: fr, st: final, old: fr.entry, vars: fr.cvars}
 		coverOf := map[*Term]int{}
-		for k, en := range fc.Ensures {
-			if hasExists(en.Expr) {
+		for k, en := range toProve {
+			if hasExists(en.Expr) || fc.PerSite {
 				// existential postcondition: checked at each return site, where the live integer
-				// locals (typically the loop index) are tried as witnesses
+				// locals (typically the loop index) are tried as witnesses; `persite` asks for the
+				// same treatment of every postcondition (one smaller query per return)
 				fx.ensuresPerSite(fr, fc, fn, k, en)
 				continue
 			}
